@@ -94,7 +94,8 @@ func vh_C20_decode() {
 // every map order.
 func vh_C20_hashes() {
 	vFormatOpaque(true)
-	env := vEvalEnv(0)
+	envs := vStdEnvs(2) // the standard setup: struct, func and the other builders are available
+	env := envs[0]
 	progs := []string{
 		`(def h (hash a: 9001 b: 2 c: 3)) (list (str h) (keys h) (len h) (hget h b:))`,
 		`(def h (hash a: 9001 b: 2)) (hdel h a:) (hset h c: 3) (list (str h) (keys h))`,
@@ -132,7 +133,7 @@ func vh_C20_hashes() {
 	vMapOrder(false, 0)
 	a := run(env)
 	vMapOrder(true, 3)
-	b := run(vEvalEnvs[1])
+	b := run(envs[1])
 	vMapOrder(false, 0)
 	vAssert(a == b, "evaluation-independent-of-map-order")
 	vReach("hashes")
